@@ -277,7 +277,10 @@ static void two_case(long long n, uint64_t seed, const std::string& dir)
 			// a fault: abrupt drop of the connection, or one side dies; optionally sends into the void; then both sides come back
 			++faults;
 			const int f = (int)r.below(3);
-			if (r.chance(50)) settle("before fault");	// otherwise the fault hits traffic in flight
+			if (r.chance(50)) {	// otherwise the fault hits traffic in flight
+				// sessions that are stuck here stay stuck until something from outside (the fault below) happens to them: a violation too
+				if (settle("before the next fault") == -2) { R.viol("oracle:sessions-stuck-without-agreement|" + cls, d + admin_tail(1500)); failed = true; break; }
+			}
 			if (f == 0) { trace += "[drop"; if (A.fd >= 0) ::shutdown(A.fd, SHUT_RDWR); }
 			else if (f == 1) { trace += "[killI"; I.destroy(); }
 			else { trace += "[killA"; A.destroy(); }
